@@ -19,6 +19,8 @@ def run(repo, rep):
     rep.rule('C01.O3', 'variable parts: same order and attribute; bytes read (with the encoder\'s value of every length '
              'field substituted) = bytes written', 23)
     rep.rule('C01.O4', 'extent: bytes emitted = total_length() = bytes consumed', 23)
+    rep.rule('C01.O9', 'value conversions: the decoder applies only the inverse of what the encoder applies (same text codec, NUL '
+             'padding of fixed-width text stripped, nothing else stripped, sliced or re-cased)', 23)
     rep.rule('C01.O6', 'dispatch agreement: every type literal selects the class with that type; every codec is reachable', 27)
     rep.rule('C01.O7', 'container bound: child loops are bounded by a declared length, a closed type set disjoint from '
              'what may follow, or the end of the PDU buffer', 5)
